@@ -141,7 +141,7 @@ func validFrame(t *rapid.T, di *dialectInfo, o gen.FrameOpts, key *[32]byte) (re
 
 func TestC02Gate(t *testing.T) {
 	rec := evid.New(t, "C02", "a reference-encoded, reference-checksummed dialect message must be delivered decoded; every single-bit flip of its bytes (plus byte substitutions, checksum swaps, foreign CRC_EXTRA) is fed to the reader and judged by the consumed-span oracle: a frame is delivered only if the bytes consumed are a frame the reference accepts; non-trivial = a damaged frame; distinct by hash of the damaged bytes")
-	rec.Require("flip-header", "flip-payload", "flip-checksum", "valid-delivered", "foreign-crc-extra", "flip-signature-block", "id>=65536")
+	rec.Require("flip-header", "flip-payload", "flip-checksum", "valid-delivered", "foreign-crc-extra", "flip-signature-block", "id>=65536", "signed-with-wrong-checksum", "valid-delivered-split")
 	dpool := pool(t)
 	maxFlipLen := 80
 	evid.Check(t, rec, evid.N(5000, 15000), func(t *rapid.T) {
@@ -158,7 +158,41 @@ func TestC02Gate(t *testing.T) {
 			}
 			return judge(stream, res, di, nil)
 		}
-		// completeness
+		// completeness, also when the frame arrives in two transport reads split at any offset
+		for cut := 1; cut < len(data) && len(data) <= maxFlipLen; cut++ {
+			res, terr, herr := readAll(&chunkReader{data: data, sizes: []int{cut, len(data)}, failAt: -1}, di.rw, nil, len(data)+2)
+			if herr != nil || terr != io.EOF {
+				t.Fatalf("split at %d: %v / %v", cut, herr, terr)
+			}
+			d2, jerr := judge(data, res, di, nil)
+			if jerr != nil || len(d2) != 1 || !gen.SameFrame(d2[0], f) {
+				evid.ReplayNote("C02", "TestC02Gate", fmt.Sprintf("frame %x split after byte %d: delivered %d (%v)", data, cut, len(d2), jerr))
+				t.Fatalf("a well-formed %s frame with the reference checksum, arriving in two reads split after byte %d, was not delivered as such (delivered %d, %v): %x", lay.MsgName, cut, len(d2), jerr, data)
+			}
+			rec.Class("valid-delivered-split", 1)
+		}
+		// the checksum gate is independent of link signing: a correctly SIGNED frame with a wrong checksum is refused
+		if f.V2 {
+			gkey := [32]byte{0x5C, 1, 2}
+			g := f
+			g.Incompat |= 1
+			g.LinkID, g.Timestamp = 7, 3000000
+			g.Checksum = g.ChecksumFor(lay.CRCExtra)
+			g.Sig = g.SignatureFor(gkey)
+			okRes, _, _ := readAll(&chunkReader{data: g.Bytes(), failAt: -1}, di.rw, keyOf(&gkey), len(data)+30)
+			if d3, jerr := judge(g.Bytes(), okRes, di, &gkey); jerr != nil || len(d3) != 1 {
+				t.Fatalf("signed frame with the reference checksum not delivered under the key: %v", jerr)
+			}
+			g.Checksum ^= uint16(rapid.IntRange(1, 0xFFFF).Draw(t, "signed_crc_damage"))
+			g.Sig = g.SignatureFor(gkey) // signature valid for the damaged frame (a sender with another definition of the message)
+			badRes, _, _ := readAll(&chunkReader{data: g.Bytes(), failAt: -1}, di.rw, keyOf(&gkey), len(data)+30)
+			d4, jerr := judge(g.Bytes(), badRes, di, &gkey)
+			if jerr != nil || len(d4) != 0 {
+				evid.ReplayNote("C02", "TestC02Gate", fmt.Sprintf("signed frame with wrong checksum %x: %v delivered=%d", g.Bytes(), jerr, len(d4)))
+				t.Fatalf("a validly signed %s frame carrying a wrong checksum was delivered (incoming key configured): %x (%v)", lay.MsgName, g.Bytes(), jerr)
+			}
+			rec.Case(true, evid.Hash(g.Bytes(), []byte("signed")), "signed-with-wrong-checksum")
+		}
 		del, err := runOn(data)
 		if err != nil {
 			t.Fatalf("valid frame %s (%s): %v", gen.Describe(f), lay.MsgName, err)
